@@ -22,7 +22,17 @@ pub enum Source {
     Tokio,
 }
 
+/// Set by the real-time watchdog: the next clock read panics, which unwinds
+/// the run (the code under test reads the clock in every cache lookup).
+pub static ABORT: std::sync::atomic::AtomicBool = std::sync::atomic::AtomicBool::new(false);
+
+/// Clock reads allowed at one virtual instant before the run is declared
+/// stalled (a spin that makes no virtual progress never meets a timer).
+pub const STALL_LIMIT: u64 = 1_000_000;
+
 thread_local! {
+    static LAST_INSTANT: Cell<u64> = const { Cell::new(u64::MAX) };
+    static READS_AT_INSTANT: Cell<u64> = const { Cell::new(0) };
     static SOURCE: Cell<Source> = const { Cell::new(Source::Unset) };
     static MANUAL: Cell<u64> = const { Cell::new(0) };
     static TOKIO_BASE: Cell<Option<tokio::time::Instant>> = const { Cell::new(None) };
@@ -35,7 +45,24 @@ impl Instant {
     /// If no clock source has been selected on this thread.
     pub fn now() -> Instant {
         READS.with(|r| r.set(r.get() + 1));
-        Instant(BASE + elapsed_nanos())
+        let now = elapsed_nanos();
+        if LAST_INSTANT.with(Cell::get) == now {
+            let n = READS_AT_INSTANT.with(|c| {
+                c.set(c.get() + 1);
+                c.get()
+            });
+            if n > STALL_LIMIT {
+                READS_AT_INSTANT.with(|c| c.set(0));
+                panic!("STALL: {n} clock reads by the code under test without virtual time advancing");
+            }
+            if n % 4096 == 0 && ABORT.load(std::sync::atomic::Ordering::Relaxed) {
+                panic!("ABORT: real-time watchdog");
+            }
+        } else {
+            LAST_INSTANT.with(|c| c.set(now));
+            READS_AT_INSTANT.with(|c| c.set(0));
+        }
+        Instant(BASE + now)
     }
 
     pub fn saturating_duration_since(&self, earlier: Instant) -> Duration {
@@ -103,6 +130,8 @@ pub fn use_tokio() {
 
 pub fn unset() {
     SOURCE.with(|s| s.set(Source::Unset));
+    LAST_INSTANT.with(|c| c.set(u64::MAX));
+    READS_AT_INSTANT.with(|c| c.set(0));
 }
 
 pub fn source() -> Source {
